@@ -71,3 +71,13 @@ Fixpoint collect_from (cur : option fp) (attrs : list (list (list Z))) : option 
     end
   end.
 Definition collect (attrs : list (list (list Z))) : option (option fp) := collect_from None attrs.
+
+(* handle_certificate: `&actual_fingerprint != expected_fingerprint` on Strings -- equality of the whole
+   strings (same length, same characters); no prefix, no case folding at this layer *)
+Fixpoint str_eqb (a b : list Z) : bool :=
+  match a, b with
+  | [], [] => true
+  | x :: a', y :: b' => (x =? y) && str_eqb a' b'
+  | _, _ => false
+  end.
+Definition fp_accepts (expected : list Z) (digest : list Z) : bool := str_eqb expected (render digest).
